@@ -187,30 +187,16 @@ func (e *Engine) evalRegion(sc *Scope, ex ast.Expr, what string) (*Term, *Term) 
 			return p, n
 		}
 	}
-	if sel, ok := ex.(*ast.SelectorExpr); ok {
-		// region of a struct field reached through a typed pointer: p.f
-		if _, isPkg := sel.X.(*ast.Ident); !isPkg || true {
-			func() {
-				defer func() { recover() }()
-				base := sc.eval(sel.X)
-				if base.k == kInt && base.gt != nil {
-					if pt, ok := base.gt.Underlying().(*types.Pointer); ok {
-						if st, ok := pt.Elem().Underlying().(*types.Struct); ok {
-							offs := structOffsets(st)
-							for i := 0; i < st.NumFields(); i++ {
-								if st.Field(i).Name() == sel.Sel.Name {
-									if _, isSlice := st.Field(i).Type().Underlying().(*types.Slice); !isSlice {
-										fieldLo = tb.Add(base.t, tb.ConstU(uint64(offs[i]), 64))
-										fieldN = tb.ConstU(uint64(sizes.Sizeof(st.Field(i).Type())), 64)
-									}
-								}
-							}
-						}
-					}
+	if _, ok := ex.(*ast.SelectorExpr); ok {
+		// region of a (possibly nested) struct field reached through a typed pointer
+		if addr, t, ok := sc.lvalue(ex); ok {
+			switch t.Underlying().(type) {
+			case *types.Slice:
+			default:
+				if b, isB := t.Underlying().(*types.Basic); !isB || b.Kind() != types.String {
+					fieldLo, fieldN = addr, tb.ConstU(uint64(sizes.Sizeof(t)), 64)
+					return fieldLo, fieldN
 				}
-			}()
-			if fieldLo != nil {
-				return fieldLo, fieldN
 			}
 		}
 	}
@@ -231,6 +217,54 @@ func (e *Engine) evalRegion(sc *Scope, ex ast.Expr, what string) (*Term, *Term) 
 	}
 	sc.fail("bad region designator")
 	return nil, nil
+}
+
+// lvalue evaluates p.f.g... to the address and type of the designated field,
+// where p is a typed pointer to a struct.
+func (s *Scope) lvalue(ex ast.Expr) (addr *Term, t types.Type, ok bool) {
+	defer func() {
+		if r := recover(); r != nil {
+			if _, isSpec := r.(specError); isSpec {
+				ok = false
+				return
+			}
+			panic(r)
+		}
+	}()
+	tb := s.e.tb
+	sel, isSel := ex.(*ast.SelectorExpr)
+	if !isSel {
+		return nil, nil, false
+	}
+	var baseAddr *Term
+	var st *types.Struct
+	if a, bt, ok := s.lvalue(sel.X); ok {
+		if x, ok := bt.Underlying().(*types.Struct); ok {
+			baseAddr, st = a, x
+		}
+	}
+	if st == nil {
+		base := s.eval(sel.X)
+		if base.k != kInt || base.gt == nil {
+			return nil, nil, false
+		}
+		pt, ok := base.gt.Underlying().(*types.Pointer)
+		if !ok {
+			return nil, nil, false
+		}
+		x, ok := pt.Elem().Underlying().(*types.Struct)
+		if !ok {
+			return nil, nil, false
+		}
+		baseAddr, st = base.t, x
+	}
+	offs := structOffsets(st)
+	for i := 0; i < st.NumFields(); i++ {
+		if st.Field(i).Name() == sel.Sel.Name {
+			return tb.Add(baseAddr, tb.ConstU(uint64(offs[i]), 64)), st.Field(i).Type(), true
+		}
+	}
+	return nil, nil, false
 }
 
 func (s *Scope) toInt(v SV, w int, signed bool) *Term {
